@@ -184,6 +184,41 @@ func TestVerifC07Scenarios(t *testing.T) {
 		cases += 2
 	}
 
+	// (1b) no return path keeps the write lock: after a refresh with an already-cancelled context, a
+	// cancelled miss-fetch and a failing source, the next refresh and the next miss-fetch complete
+	{
+		src := &verifC07Src{recs: map[peer.ID]int{pids[0]: 1}, entered: make(chan string, 4)}
+		pc, err := New(WithSource(src), WithPreload(false), WithRefreshInterval(0), WithTTL(time.Hour))
+		if err != nil {
+			t.Fatal(err)
+		}
+		dead, cancel := context.WithCancel(ctx)
+		cancel()
+		within("Refresh with a cancelled context", func() { pc.Refresh(dead) })
+		within("Get (miss) with a cancelled context", func() { pc.Get(dead, pids[1]) })
+		src.failAll = true
+		within("Refresh with a failing source", func() { pc.Refresh(ctx) })
+		c2, cancel2 := context.WithCancel(ctx)
+		src.cancelFn = cancel2
+		within("Refresh cancelled at the source", func() { pc.Refresh(c2) })
+		within("Refresh after the failed ones", func() {
+			c, cancel := context.WithTimeout(ctx, 4*time.Second)
+			defer cancel()
+			if err := pc.Refresh(c); err != nil {
+				t.Errorf("refresh after failed refreshes: %v (write lock still held?)", err)
+			}
+		})
+		within("miss-fetch after the failed ones", func() {
+			c, cancel := context.WithTimeout(ctx, 4*time.Second)
+			defer cancel()
+			src.recs[pids[2]] = 1
+			if p, err := pc.Get(c, pids[2]); err != nil || p == nil {
+				t.Errorf("miss-fetch after failed refreshes: %v %v (write lock still held?)", p, err)
+			}
+		})
+		cases++
+	}
+
 	// (2) published snapshots are never modified
 	{
 		src := &verifC07Src{recs: map[peer.ID]int{pids[0]: 1}, entered: make(chan string, 4)}
